@@ -460,9 +460,12 @@ MC_INIT
                 t_strndup(s.b, s.len, n);
                 calls += 4;
             }
-            t_strnlen(s.b, s.len, NMAX);
-            t_strndup(s.b, s.len, NMAX);
-            calls += 2;
+            for (size_t hn : HUGE_N)
+            {
+                t_strnlen(s.b, s.len, hn);
+                t_strndup(s.b, s.len, hn);
+                calls += 2;
+            }
             for (int c : CV)
             {
                 t_chr(s.b, s.len, c);
@@ -480,7 +483,7 @@ MC_INIT
         int L = mc::thorough() ? 7 : 5;
         int i = mc::choose((int)TS.upto[L]);
         const Str &a = TS.v[i];
-        mc::describe("string %s x every string of length <=3 over the alphabet: strstr (both orders) strspn strcspn strpbrk strcat strncat(n=0..len+2,SIZE_MAX), both guard placements",
+        mc::describe("string %s x every string of length <=3 over the alphabet: strstr (both orders) strspn strcspn strpbrk strcat strncat(n=0..len+2 and 3 huge n), both guard placements",
                      hexs(a.b, a.len).c_str());
         if (a.len >= 2 || highbit(a.b, a.len))
             mc::nontrivial();
@@ -502,8 +505,11 @@ MC_INIT
                     t_ncat(a.b, a.len, b.b, b.len, n);
                     calls++;
                 }
-                t_ncat(a.b, a.len, b.b, b.len, NMAX);
-                calls++;
+                for (size_t hn : HUGE_N)
+                {
+                    t_ncat(a.b, a.len, b.b, b.len, hn);
+                    calls++;
+                }
             }
         PL = AFTER;
         mc::more_cases(calls - 1, calls - 1);
@@ -516,7 +522,7 @@ MC_INIT
         int L = mc::thorough() ? 5 : 4;
         int i = mc::choose((int)TS.upto[L]);
         const Str &a = TS.v[i];
-        mc::describe("strcmp/strncmp of %s against every string of length <=%d, n=0..max+1 and SIZE_MAX, both guard placements", hexs(a.b, a.len).c_str(), L);
+        mc::describe("strcmp/strncmp of %s against every string of length <=%d, n=0..max+1 and 3 huge n, both guard placements", hexs(a.b, a.len).c_str(), L);
         if (a.len >= 1)
             mc::nontrivial();
         uint64_t calls = 0;
@@ -532,8 +538,11 @@ MC_INIT
                     t_ncmp(a.b, a.len, b.b, b.len, n);
                     calls++;
                 }
-                t_ncmp(a.b, a.len, b.b, b.len, NMAX);
-                calls++;
+                for (size_t hn : HUGE_N)
+                {
+                    t_ncmp(a.b, a.len, b.b, b.len, hn);
+                    calls++;
+                }
             }
         PL = AFTER;
         mc::more_cases(calls - 1, calls - 1);
@@ -570,8 +579,11 @@ MC_INIT
                         t_ncasecmp(a.b, a.len, b.b, b.len, n);
                         calls++;
                     }
-                    t_ncasecmp(a.b, a.len, b.b, b.len, NMAX);
-                    calls++;
+                    for (size_t hn : HUGE_N)
+                    {
+                        t_ncasecmp(a.b, a.len, b.b, b.len, hn);
+                        calls++;
+                    }
                 }
             if (a.len <= Lh)
                 for (size_t j = 0; j < TC.upto[Ln]; j++)
@@ -722,8 +734,11 @@ MC_INIT
                     t_strlcpy(s.data(), L, n);
                     t_strndup(s.data(), L, n);
                 }
-                t_strnlen(s.data(), L, NMAX);
-                t_strndup(s.data(), L, NMAX);
+                for (size_t hn : HUGE_N)
+                {
+                    t_strnlen(s.data(), L, hn);
+                    t_strndup(s.data(), L, hn);
+                }
             }
             else if (grp == 1)
             {
@@ -760,7 +775,7 @@ MC_INIT
                         t_cmp(pre.data(), p, s.data(), L);
                         t_cmp(s.data(), L, pre.data(), p);
                     }
-                    for (size_t n : {p, p + 1, (size_t)255, (size_t)256, (size_t)257, L, NMAX})
+                    for (size_t n : {p, p + 1, (size_t)255, (size_t)256, (size_t)257, L, HUGE_N[0], HUGE_N[1], HUGE_N[2]})
                     {
                         t_ncmp(s.data(), L, b.data(), L, n);
                         t_ncmp(b.data(), L, s.data(), L, n);
@@ -773,7 +788,7 @@ MC_INIT
                     b[p] = 0xFD;
                     t_casecmp(s.data(), L, b.data(), L);
                     t_casecmp(b.data(), L, s.data(), L);
-                    for (size_t n : {p, p + 1, (size_t)256, NMAX})
+                    for (size_t n : {p, p + 1, (size_t)256, HUGE_N[0], HUGE_N[1], HUGE_N[2]})
                         t_ncasecmp(s.data(), L, b.data(), L, n);
                 }
             }
@@ -833,7 +848,8 @@ MC_INIT
                     t_cat(d.data(), dl, s.data(), L);
                     for (size_t n : NS)
                         t_ncat(s.data(), L, d.data(), dl, n);
-                    t_ncat(s.data(), L, d.data(), dl, NMAX);
+                    for (size_t hn : HUGE_N)
+                        t_ncat(s.data(), L, d.data(), dl, hn);
                     t_ncat(d.data(), dl, s.data(), L, 255);
                     t_ncat(d.data(), dl, s.data(), L, 257);
                 }
